@@ -166,6 +166,7 @@ def hermite_He_der_seq(ns, x):
     # in use here
     ns = list(ns)
     min_i = 0
+    x = np.asarray(x)  # scalars work, as documented
     # rows hold what the recurrence produces: floats, also for integer coordinates
     out = np.empty((len(ns), *x.shape), dtype=np.result_type(x, 1.0))
     if ns[min_i] == 0:
@@ -368,6 +369,7 @@ def hermite_H_der_seq(ns, x):
     # in use here
     ns = list(ns)
     min_i = 0
+    x = np.asarray(x)  # scalars work, as documented
     # rows hold what the recurrence produces: floats, also for integer coordinates
     out = np.empty((len(ns), *x.shape), dtype=np.result_type(x, 1.0))
     if ns[min_i] == 0:
